@@ -1006,7 +1006,12 @@ def do_reg(pid, flags, sup, skip, ign, tname):
         return {'st': 'err', 'kind': type(e).__name__, 'msg': str(e)[:160]}
     ents = []
     for (t, sk), v in ctx.env.type_rewrites.items():
-        ents.append((ids.num(t.get_name(ctx.env.schema)), 1 if sk else 0, summarize_rw(v)))
+        nm = str(t.get_name(ctx.env.schema))
+        if '@' in nm:
+            # the view type of a cached computed global (expr.compile_GlobalExpr stores the
+            # global's query under its own key): not a new_set/try_type_rewrite registration
+            continue
+        ents.append((ids.num(nm), 1 if sk else 0, summarize_rw(v)))
     ents.sort()
     res = f'ign={1 if s.ignore_rewrites else 0}' + ''.join(f' {i}/{k}={v}' for i, k, v in ents)
     supids = ','.join(str(ids.num(qual(n))) for n in supn) or '-'
